@@ -356,7 +356,7 @@ def gen_doc(rng, ntab=None, table_entry=False, zero_array=True):
         for _ in range(rng.randrange(1, 5)):
             k = rng.randrange(4)
             if k == 0:
-                key = gen_ident(rng, usedk, pool=['mjd', 'name', 'keyword1', 'comments', 'comment', 'symbols_of', 'filename'])
+                key = gen_ident(rng, usedk, pool=['mjd', 'name', 'keyword1', 'comments', 'comment', 'symbols_of', 'filename', 'enum', 'struct', 'typedef_', 'char'])
             else:
                 key = gen_chars(rng, rng.randrange(1, 8), lambda c: 33 <= ord(c) <= 126 and c != '#', flavour=rng.choice([0, 3, 4]))
                 if key[0] in '"{':
